@@ -297,7 +297,7 @@ def rand_target(rng):
 FALSY_VALS = [VI(0), VS(''), {'k': 'bool', 'b': False}, NONE]
 ODD_LEAVES = [V(VI(0)), V(VS('')), V({'k': 'bool', 'b': False}), F('ret_SKIP'), F('ret_STOP'), F('raise_KeyError'), F('raise_ValueError'), F('raise_GlomError'),
               V(SKIP), V(STOP), V(NONE), V(VI(1)), C(VI(3)), P('x'), F('ident'), F('inc'), F('size'),
-              TT(('[', VS('x'))), TT(('.', VS('a'))), TT(), F('is_none'), F('echo'), F('ret_None'), F('ret_None')]
+              TT(('[', VS('x'))), TT(('.', VS('a'))), TT(), F('is_none'), F('echo'), F('ret_None'), F('ret_None'), F('Tagged'), F('Tagged')]
 
 
 class Gen:
@@ -594,7 +594,7 @@ class Gen:
 
     def g_call(self, tgt, d):
         rng = self.rng
-        fcand = [F('echo'), F('echo'), F('pair'), F('inc'), F('ident')]
+        fcand = [F('echo'), F('echo'), F('pair'), F('inc'), F('ident'), F('Tagged')]
         if isinstance(tgt, dict):
             fcand += [TT(('[', VS(k))) for k, v in tgt.items() if callable(v) and isinstance(k, str)]
             fcand += [W('spec', P(k)) for k, v in tgt.items() if callable(v) and isinstance(k, str) and k]
